@@ -167,6 +167,12 @@ let rec handler r =
       out (andthen (guard_interpolation_2d fops xs ys shape) (fun () -> guard_interpolate_2d fops xs ys x y))
   | "interp2d_table" -> out (guard_interpolation_2d_table fops (table r))
   | "closest" -> let l = list r in let t = num r in out (closest_location fops l t)
+  | "locate_trace" -> let xs = list r in let n = integer r in let reqs = List.init n (fun _ -> num r) in
+      (* Locate with its search state: index, jLast and correlated_calls after every request *)
+      (match andthen (ctor xs) (fun () -> locate_trace fops xs reqs) with
+       | Ok l -> put_w "OK"; put_i (List.length l);
+           List.iter (fun (j, (jl, c)) -> put_i (int_of_z j); put_i (int_of_z jl); put_i (if c then 1 else 0)) l
+       | Exit -> put_w "EXIT" | OOB -> put_w "OOB" | Fuel -> put_w "FUEL")
   | "icalls" -> let xs = list r in let nf = zi r in let xd = num r in let fd = num r in let cs = icalls r in
       out_domain (interp_session fops xs nf xd fd cs) (fun () -> session_locs fops xs xd cs)
   | "icalls_t" -> let tb = table r in let xd = num r in let fd = num r in let cs = icalls r in
